@@ -499,6 +499,147 @@ func arithLayers(j judge, tier string) []Layer {
 			},
 		})
 	}
+	// L14: SetPrec / Set / Neg on variables whose accuracy is left over from an earlier inexact
+	// operation, also ±Inf from an overflow and ±0 from an underflow or from SetPrec(0)
+	{
+		type src struct {
+			name string
+			mk   func(m uint8) *Dec
+		}
+		ovf := func(neg, under bool) func(m uint8) *Dec {
+			return func(m uint8) *Dec {
+				e := int64(MaxExp)
+				if under {
+					e = MinExp
+				}
+				b := mkInt64(1, 0, 5, 0)
+				b.Exp, b.V.E10 = e, e-DW
+				y := mkInt64(3, 0, 5, 0)
+				if neg {
+					y.Neg, y.V.Neg = true, true
+				}
+				z := fresh(7, m)
+				z.Mul(b.Build(), new(Dec).Mul(y.Build(), b.Build()))
+				return z
+			}
+		}
+		srcs := []src{
+			{"1.2345 rounded to 3 digits (Below)", func(m uint8) *Dec { z, _ := fresh(3, m).SetString("1.2345"); return z }},
+			{"-1.2345 rounded to 3 digits (Above)", func(m uint8) *Dec { z, _ := fresh(3, m).SetString("-1.2345"); return z }},
+			{"2/3 at 20 digits (Above)", func(m uint8) *Dec { return fresh(20, m).Quo(new(Dec).SetInt64(2), new(Dec).SetInt64(3)) }},
+			{"+Inf by overflow", ovf(false, false)}, {"-Inf by overflow", ovf(true, false)},
+			{"+0 by underflow", ovf(false, true)}, {"-0 by underflow", ovf(true, true)},
+			{"+0 by SetPrec(0) of 7", func(m uint8) *Dec { return new(Dec).SetMode(decimal.RoundingMode(m)).SetInt64(7).SetPrec(0) }},
+			{"-0 by SetPrec(0) of -7", func(m uint8) *Dec { return new(Dec).SetMode(decimal.RoundingMode(m)).SetInt64(-7).SetPrec(0) }},
+		}
+		precs := []uint{0, 1, 2, 3, 7, 19, 20, 21, 40}
+		layers = append(layers, Layer{
+			Name:   "L14-leftover-accuracy",
+			Units:  len(srcs),
+			Bounds: fmt.Sprintf("z.SetPrec(p) in place, w.Set(z), w.Neg(z), w.Abs(z) for z one of %d variables whose Acc() is not Exact (rounded finite values, ±Inf by overflow, ±0 by underflow, ±0 by SetPrec(0)) and p in %v, receiver precision {0, 2, 30}, 6 modes: the new accuracy describes this operation only", len(srcs), precs),
+			Run: func(c *Ctx, u int) {
+				s := srcs[u]
+				check := func(key string, z *Dec, pv interface{}, exp RRes, exact Val, prec uint32, mode uint8) {
+					if pv != nil {
+						c.Fail(key, fmt.Sprintf("panic: %v", pv))
+						return
+					}
+					o := Observe(z)
+					c.Outcome(o.Hash())
+					if msg := Canonical(o); msg != "" {
+						c.Fail(key, "result not canonical: "+msg)
+						return
+					}
+					ok := matchValue(o, exp)
+					switch j {
+					case judgeAttr:
+						if msg := attrMsg(o, prec, mode); msg != "" {
+							c.Fail(key, msg)
+						}
+					case judgeValue:
+						if !ok {
+							c.Fail(key, cmpValue(o, exp))
+						}
+					case judgeAcc:
+						want := exp.Acc
+						if !ok {
+							want = int8(CmpVal(o.Val(), exact))
+						}
+						if o.Acc != want {
+							c.Fail(key, fmt.Sprintf("Acc() = %d but sign(stored − exact) = %d; stored %s, model %s", o.Acc, want, o, exp))
+						}
+					}
+				}
+				for _, m := range M6 {
+					z0 := s.mk(m)
+					if z0.Acc() == 0 {
+						c.Fail("L14 source "+s.name, "construction did not leave a non-Exact accuracy")
+						return
+					}
+					v0 := Observe(z0).Val() // (depends on the mode for the rounded finite sources)
+					zprec := Observe(z0).Prec
+					for _, p := range precs {
+						if c.Skip() {
+							continue
+						}
+						c.NonTrivial()
+						z := s.mk(m) // built in mode m: SetMode would reset the accuracy
+						pv, _ := protect(func() { z.SetPrec(p) })
+						key := fmt.Sprintf("SetPrec(%d) on %s mode=%s", p, s.name, modeName(m))
+						var exp RRes
+						if p == 0 {
+							// documented: finite values become ±0 (accuracy: the sign of what was lost), infinities stay
+							exp = RRes{Form: v0.Form, Neg: v0.Neg}
+							if v0.Form == fFinite {
+								exp.Form = fZero
+								exp.Acc = 1
+								if !v0.Neg {
+									exp.Acc = -1
+								}
+							}
+						} else {
+							exp = RoundVal(v0, uint32(p), m)
+						}
+						check(key, z, pv, exp, v0, uint32(p), m)
+					}
+					for _, rp := range []uint32{0, 2, 30} {
+						for _, op := range []int{opSet, opNeg, opAbs} {
+							if j == judgeAcc && op != opSet {
+								continue // C02 does not list Neg/Abs
+							}
+							if c.Skip() {
+								continue
+							}
+							c.NonTrivial()
+							z := s.mk(m)
+							w := buildPre(preInexact, rp, m)
+							p := rp
+							if p == 0 {
+								p = zprec
+							}
+							exp := RoundVal(v0, p, m) // Neg/Abs: round, then set the sign (statement of C01)
+							exact := v0
+							var pv interface{}
+							switch op {
+							case opSet:
+								pv, _ = protect(func() { w.Set(z) })
+							case opNeg:
+								pv, _ = protect(func() { w.Neg(z) })
+								exp.Neg, exp.Acc, exact.Neg = !exp.Neg, -exp.Acc, !exact.Neg
+							case opAbs:
+								pv, _ = protect(func() { w.Abs(z) })
+								if exp.Neg {
+									exp.Neg, exp.Acc = false, -exp.Acc
+								}
+								exact.Neg = false
+							}
+							check(fmt.Sprintf("%s of %s into prec=%d mode=%s", opNames[op], s.name, rp, modeName(m)), w, pv, exp, exact, p, m)
+						}
+					}
+				}
+			},
+		})
+	}
 	// L13: long operands that are equal except for one word, at every index: the difference cancels down
 	// to that word (the magnitude comparison and the borrow chain are decided in the middle)
 	{
